@@ -146,6 +146,16 @@ def apply_fault(b, f, aux=None):
             return R.replace_tlv(b, chain, bytes([tag]) + enc + pre + nb)
         except Exception:
             return None
+    if k == "nest":
+        # the whole file becomes the privateKey of one more PKCS#8 PrivateKeyInfo, f[1] times over
+        def tlv(tag, content):
+            n = len(content)
+            ln = bytes([n]) if n < 0x80 else bytes([0x80 | ((n.bit_length() + 7) // 8)]) + n.to_bytes((n.bit_length() + 7) // 8, "big")
+            return bytes([tag]) + ln + content
+        alg = tlv(0x30, tlv(0x06, bytes.fromhex(f[2])) + b"\x05\x00")
+        for _ in range(f[1]):
+            b = tlv(0x30, b"\x02\x01\x00" + alg + tlv(0x04, b))
+        return b
     if k == "torn":
         o = aux["other"]
         return b[:f[1]] + o[f[1]:]
@@ -229,6 +239,11 @@ def single_faults(b, is_der, is_text):
             hows += ["retag" + t for t in ("02", "04", "03", "30", "31", "05", "06", "a0", "a1") if int(t, 16) != tag][:5 if len(chain) > 2 else 9]
             for how in hows:
                 out.append(["tlv", [list(c) for c in chain], how])
+    if is_der and b[:1] == b"\x30" and L > 40:
+        # containers inside containers: decoders that descend must do so in bounded depth (and say ValueError, not RecursionError)
+        for oid in ("2a864886f70d010101", "2a8648ce380401", "2a8648ce3d0201"):
+            for depth in (1, 2, 40, 1500):
+                out.append(["nest", depth, oid])
     for k in hot[::9]:
         if k > 0:
             out.append(["torn", k])
@@ -939,7 +954,7 @@ class Machine(object):
             ctx.state((t.name, kinds[0], "rejected" if exc is not None else "accepted"))
             # ---- total
             if exc is not None and not isinstance(exc, t.allowed):
-                site = raising_site(exc)
+                site = raising_site(exc) if not isinstance(exc, RecursionError) else "unbounded-recursion"      # (where the stack ran out is arbitrary)
                 ctx.violate("exc-contract/%s/%s@%s" % (t.name, type(exc).__name__, site),
                             "%s raised %s (%s) on damaged input (%s); documented: %s" % (
                                 t.name, type(exc).__name__, exc, label, "/".join(x.__name__ for x in t.allowed)),
